@@ -363,8 +363,9 @@ func (c *Chain) PrepareScript(signers []neotest.Signer, script []byte) *transact
 
 // ScopedSigner is a signer with an explicit witness scope.
 type ScopedSigner struct {
-	S     neotest.Signer
-	Scope transaction.WitnessScope
+	S       neotest.Signer
+	Scope   transaction.WitnessScope
+	Allowed []util.Uint160 // for CustomContracts
 }
 
 // PrepareScoped builds a signed transaction whose signers carry the given witness scopes; the first one
@@ -376,7 +377,7 @@ func (c *Chain) PrepareScoped(script []byte, signers []ScopedSigner) *transactio
 	var all []neotest.Signer
 	for _, s := range signers {
 		all = append(all, s.S)
-		tx.Signers = append(tx.Signers, transaction.Signer{Account: s.S.ScriptHash(), Scopes: s.Scope})
+		tx.Signers = append(tx.Signers, transaction.Signer{Account: s.S.ScriptHash(), Scopes: s.Scope, AllowedContracts: s.Allowed})
 	}
 	neotest.AddNetworkFee(c.T, c.BC, tx, all...)
 	if c.FixedSysFee > 0 {
